@@ -15,6 +15,7 @@
 package ice
 
 import (
+	"bytes"
 	"fmt"
 
 	"github.com/RoaringBitmap/roaring"
@@ -112,6 +113,11 @@ func (d *Dictionary) Close() error {
 func (d *Dictionary) Iterator(a segment.Automaton,
 	startKeyInclusive, endKeyExclusive []byte) segment.DictionaryIterator {
 	if d.fst != nil {
+		if startKeyInclusive != nil && endKeyExclusive != nil &&
+			bytes.Compare(startKeyInclusive, endKeyExclusive) >= 0 {
+			// empty range; vellum would still deliver a key equal to the start
+			return emptyDictionaryIterator
+		}
 		rv := &DictionaryIterator{
 			d: d,
 		}
